@@ -24,6 +24,9 @@ type dispatchArm struct {
 }
 
 func isTokenType(t types.Type) bool {
+	if t != nil {
+		t = types.Unalias(t)
+	}
 	return t != nil && isNamedType(t, "", "Token") == false && func() bool {
 		n, ok := t.(*types.Named)
 		return ok && n.Obj().Name() == "Token" && n.Obj().Pkg() != nil && n.Obj().Pkg().Path() == "go/token"
